@@ -378,8 +378,22 @@ def run(ctx):
         raise AnalysisBroken('open_append: open() not reached')
     r3.check(all(isinstance(f_, int) and (f_ & 0o2000) == 0o2000 and (f_ & 0o100) == 0o100 and (f_ & 3) == 1 for f_ in oh.flags), 'open_append-passes-O_APPEND', 'open_append.c',
              'open flags %s (need O_WRONLY|O_APPEND|O_CREAT: without O_APPEND two deliveries that open the mbox before either locks it overwrite each other)' % [oct(f_) if isinstance(f_, int) else f_ for f_ in oh.flags])
-    r3.expect_min(9)
+    r3.expect_min(10)
 
+    # file offsets stay file offsets: the roll-back position must survive mailboxes beyond 2 GiB
+    NARROW = {'int', 'unsigned int', 'short', 'unsigned short', 'char', 'unsigned char', 'signed char'}
+    OFFT = {'__off_t', 'off_t', 'seek_pos', '__off64_t', 'off64_t'}
+    narrowing, noff = [], 0
+    for f_ in db.unit('qmail-local.c').functions.values():
+        for x in f_.all_x():
+            if x.type in OFFT:
+                noff += 1
+            if x.k == 'cast' and x.op == 'IntegralCast' and x.type in NARROW and x.args and x.args[0] is not None and x.args[0].type in OFFT:
+                narrowing.append('%s (%s -> %s) in %s' % (x.where, x.args[0].type, x.type, f_.name))
+        rt = f_.f.get('ret') if hasattr(f_, 'f') and isinstance(f_.f, dict) else None
+    if noff < 3:
+        raise AnalysisBroken('qmail-local.c: no file-offset expressions found')
+    r3.check(not narrowing, 'file-offsets-are-never-narrowed', 'qmail-local.c/seek.h', 'a file offset is converted to a 32-bit type at %s: for a mailbox of 2 GiB or more the roll-back position is wrong, and a failed delivery leaves a fragment behind or truncates old mail' % narrowing[:3])
     r5 = rep.rule('C12.5-copy-results', 'R-TABLE', 'substdio_copy() tells its callers apart: 0 = copied, -2 = read error, -3 = write error (maildir_child and qmail-queue treat anything else as copied); the read side under it reports errors as errors')
     from rules import libtab
     for f_ in (libtab.substdio_copy_sites, libtab.substdio_read_sites):
